@@ -26,7 +26,7 @@ RULE = (
     "target that imports the library only once it runs, started with fork / spawn / forkserver at random moments while the other threads hammer lock_tty-decorated probes "
     "(nesting depth 0..2, random hold times) and id-echoing terminal queries; delays are injected in the lock "
     "hand-over window (around mp_RLock / Array creation) and at line level inside lock_tty_wrapper / "
-    "_process_start_wrapper / _process_run_wrapper; every probe logs [enter, exit] stamps taken inside its body "
+    "_process_start_wrapper / _process_run_wrapper; in 15 % of the runs one thread stays inside a synchronized call for 1.3..2.2 s across the first start; every probe logs [enter, exit] stamps taken inside its body "
     "from CLOCK_MONOTONIC; the merged logs are swept offline for overlapping intervals of different (pid, tid) "
     "and every query must have received exactly its own reply; after their first batch of operations all "
     "processes of the tree rendezvous (ready files) and run a second batch while the whole tree is alive, so that "
@@ -61,6 +61,8 @@ def plan(tier, seed):
             create=rnd.choice(["target", "target", "subclass", "context", "lazy"]),
             failing_first_start=rnd.random() < 0.35,
         )
+        if rnd.random() < 0.15 and cfg["children"]:
+            cfg["long_hold"] = rnd.choice([1.3, 1.6, 2.2])
         if cfg["create"] == "context":
             # the context's method need not be the default one
             cfg["ctx_method"] = rnd.choice(METHODS)
@@ -179,6 +181,17 @@ def run_shard(shard, env):
             nstart = cfg["children"]
             gate = threading.Barrier(nstart) if cfg.get("concurrent_starts") and nstart > 1 else None
 
+            t_first_start = None
+            if cfg.get("long_hold"):
+                # one thread stays inside a synchronized call (a read with a long time-out,
+                # say) across the first-ever start of this process: the start has to wait
+                # for it, however long -- nothing may run alongside it in the meantime
+                lt = threading.Thread(target=cc.get_probe(), args=("main.long", 0, cfg["long_hold"]), daemon=True, name="main.long")
+                lt.start()
+                ths.append(lt)
+                time.sleep(0.05)
+                t_first_start = time.monotonic_ns()
+
             if cfg.get("failing_first_start") and cfg["method"] != "fork":
                 # the very first start of this process fails while the other threads are
                 # at work (one of them may be inside a synchronized call at that moment)
@@ -237,6 +250,8 @@ def run_shard(shard, env):
                     r = json.loads(line)
                     if r[0] == "I":
                         intervals.append(((r[1], r[2]), r[5], r[6], r[3]))
+                        if r[3] == "main.long" and t_first_start and r[5] < t_first_start < r[6]:
+                            res.count("first Process.start() issued while another thread was inside a long synchronized call")
                         if r[8]:
                             res.count("intervals that saw the lock object change (hand-over window hit)")
                         res.count("intervals under " + r[7])
